@@ -16,6 +16,21 @@ From CM Require Import Gen.Consts.   (* ocsp_fresh_divisor, ocsp_short_lifetime:
 Import ListNotations.
 Open Scope Z_scope.
 
+(** * The shape of the code this model follows
+
+    One boolean per comparison (with its direction), guard and statement order that the
+    definitions below hard-code, computed from the source of /repo by the translator on every run
+    (harness/cmd/consts/c14.go). [Proofs.code_shape] proves the conjunction, so the development
+    stops checking as soon as the code loses this shape. *)
+Definition ocsp_code_shape : bool :=
+  ocsp_tie_serial && ocsp_tie_this_after_now && ocsp_tie_next_not_before && ocsp_tie_rc_is_delegate &&
+  ocsp_tie_rc_validity && ocsp_tie_rc_eku && ocsp_tie_disabled && ocsp_tie_chain_issuer &&
+  ocsp_tie_reuse_cond && ocsp_tie_ask_cond && ocsp_tie_check_all && ocsp_tie_overlong &&
+  ocsp_tie_good_only && ocsp_tie_persist_new_only && ocsp_tie_order && ocsp_tie_fresh_cap &&
+  ocsp_tie_fresh_before && ocsp_tie_tick_skip_expired && ocsp_tie_tick_skip_fresh &&
+  ocsp_tie_tick_writeback && ocsp_tie_force_renew && ocsp_tie_hs_due && ocsp_tie_hs_renew &&
+  ocsp_tie_manage_renew && ocsp_tie_renew_evict.
+
 (** * Data *)
 
 Inductive status := Good | Revoked | Unknown.
